@@ -356,7 +356,7 @@ C07VFlag(st) ==
   LET E == st.obs.entered  Ms == MOf(st)
       p == IF ~VisitedOnce(st) THEN Len(E) + 1 ELSE ChainFailPos(st, 1)
       callp == IF p <= 1 THEN st.call ELSE E[p-1].next.call
-  IN IF p = 0 \/ ~ImplValueConsistent(st) THEN "0"
+  IN IF p = 0 \/ ~DepOnly(MOf(st)) \/ ~ImplValueConsistent(st) THEN "0"
      ELSE IF \E j \in 1..(p-1) : j <= Len(E) /\ E[j].next.has /\ E[j].next.call # E[j].call
                                   /\ KF_next_other_value(W, Ms, ById(Ms, E[j].m), E[j].next.call) THEN "2"
      ELSE IF KF_pull_rank(W, Ms, callp) THEN "1"
